@@ -19,7 +19,10 @@ RULE = ("valid streams of every method and the small .drc files of testdata (bit
         'regression streams of repaired findings (c9df685, 63027a3; the kd-tree stack finding is listed as known); '
         'the structure-aware bases include hand-built legacy 2.0-2.2 integer / float kd-tree streams (harness op '
         'legacykd: header, attribute and inner point counts each set to boundary values), point clouds spliced into '
-        'one stream with 2..3 attributes decoders and valence-traversal streams with located context counts')
+        'one stream with 2..3 attributes decoders and valence-traversal streams with located context counts'
+        '; multi-decoder streams are walked decoder by decoder, Edgebreaker decoder heads are copied / swapped '
+        '(eb_decoder_head_mutations), re-laid-out legacy meshes (props/meshlegacy.py) and last_corner_fan bases '
+        'are part of the foreign / structured families; the per-op watchdog counts CPU time')
 THEOREM_BACKED = ('DracoProps.C18: alloc_bounded: every event of the allocation log of decodeGeometrySeq on bs is <= '
                   '4259840 + 2048 * (bs.length + declared) for accepted and rejected streams (sequential decoders of every '
                   'bitstream version); alloc_bounded_seq_stream; alloc_bounded_with; alloc_bounded_undeclared; '
